@@ -419,6 +419,10 @@ alternatives:
 
 			return true, bindings, nil
 		case *ExprIdentifier:
+			if ex.token.Tag != Ident {
+				// $ is parsed as an identifier, but it is not a name a pattern can bind
+				return false, nil, e.error(expr.Token(), "$ not supported in match expressions")
+			}
 			bindings := make(map[string]*Cell)
 			ident := e.lexer.GetString(&ex.token)
 			// bind like an assignment does: scalars are copied, arrays and
